@@ -4,7 +4,9 @@ export GOFLAGS=-mod=mod
 export GOPROXY=off
 unset GOSUMDB GOTOOLCHAIN GOWORK
 export GOWORK=off
-export VERIF_ROOT="${VERIF_ROOT:-/verif}"
+# root of the framework = the directory holding this bin/ (so that a snapshot of /verif runs itself, not /verif)
+_envsh_dir="$(cd "$(dirname "${BASH_SOURCE[0]}")" && pwd)"
+export VERIF_ROOT="${VERIF_ROOT:-$(dirname "$_envsh_dir")}"
 export VERIF_REPO="${VERIF_REPO:-/repo}"
 # all scratch output (generated go.mod, overlays, binaries, worker dirs) goes here; removed by the caller
 export VERIF_SCRATCH_BASE="${VERIF_SCRATCH_BASE:-/var/tmp}"
